@@ -62,9 +62,9 @@ Lemma flag_loop_ok : forall fuel n fd i rfb fl,
   flag_post n rfb fd (flag_loop fuel n fd i rfb fl).
 Proof.
   induction fuel; intros n fd i rfb fl Hi Hl Hn Hr Hb Hby; cbn [flag_loop].
-  - unfold flag_post. pose proof (blen_nonneg fd). split; [auto|lia].
+  - unfold flag_post. reflexivity.
   - destruct fd as [|b rest].
-    + unfold flag_post, blen. cbn [length]. split; [auto|lia].
+    + unfold flag_post. reflexivity.
     + destruct Hi as [Hi|Hi]; [discriminate|].
       apply bytes_cons in Hby. destruct Hby as [Hb0 Hrest]. rewrite blen_cons in Hb.
       pose proof (blen_nonneg rest) as Hrn.
@@ -159,7 +159,7 @@ Proof.
 Qed.
 
 (* the flag bytes handed to the loop: the first min(n, len) bytes of the glyph data *)
-Lemma rpf_flag_bytes n data : valid data -> 0 <= n ->
+Lemma rpf_flag_bytes_gen n data : valid data -> 0 <= n ->
   c_read_array (Z.min n (c_remaining_bytes (cursor0 data))) 1 (cursor0 data)
   = (c_advance_by (Z.min n (blen data)) (cursor0 data), Ok (sub data 0 (Z.min n (blen data)))).
 Proof.
@@ -171,20 +171,34 @@ Proof.
   f_equal. destruct (read_array_spec 1 data 0 (0 + Z.min n (blen data)) ltac:(lia)) as [A _].
   rewrite A; [reflexivity|]. repeat split; try lia. apply Z.mod_1_r.
 Qed.
+Lemma rpf_remaining data : c_remaining_bytes (cursor0 data) = blen data.
+Proof.
+  pose proof (blen_nonneg data) as Hl. unfold c_remaining_bytes, cursor0. cbn [cpos cdata]. unfold sat_sub.
+  rewrite Z.sub_0_r, Z.max_l by lia. reflexivity.
+Qed.
+(* as of /repo 6f0a45e the flag loop is handed ALL remaining bytes of the glyph data *)
+Lemma rpf_flag_bytes data : valid data ->
+  c_read_array (c_remaining_bytes (cursor0 data)) 1 (cursor0 data)
+  = (c_advance_by (blen data) (cursor0 data), Ok (sub data 0 (blen data))).
+Proof.
+  intros V. pose proof (blen_nonneg data) as Hl. pose proof (rpf_flag_bytes_gen (blen data) data V Hl) as G.
+  rewrite rpf_remaining in G. rewrite Z.min_id in G. rewrite rpf_remaining. exact G.
+Qed.
+
 
 (* read_points_fast never panics: for every glyph data, every point count and every caller buffer *)
 Lemma read_points_fast_total n data fl0 : valid data -> 0 <= n <= USIZE_MAX -> read_points_fast n data fl0 <> Panic.
 Proof.
   intros V Hn. unfold read_points_fast. destruct (blen fl0 =? n) eqn:E; cbn [negb]; [|discriminate].
-  apply Z.eqb_eq in E. rewrite (rpf_flag_bytes n data V ltac:(lia)). cbn [rbind].
-  set (k := Z.min n (blen data)). destruct V as [Hb Hv]. pose proof (blen_nonneg data) as Hl.
+  apply Z.eqb_eq in E. rewrite (rpf_flag_bytes data V). cbn [rbind].
+  set (k := blen data). destruct V as [Hb Hv]. pose proof (blen_nonneg data) as Hl.
   assert (Lk : blen (sub data 0 k) = k) by (rewrite sub_length; unfold k; lia).
-  assert (P : flag_post n 0 (sub data 0 k) (flag_loop (length (sub data 0 k)) n (sub data 0 k) 0 0 fl0)).
-  { apply flag_loop_ok; try lia.
-    - destruct (Z.eq_dec n 0) as [Z0|NZ]; [left|right; lia].
-      assert (k = 0) by (unfold k; lia). destruct (sub data 0 k) eqn:S; [reflexivity|]. rewrite blen_cons in Lk. pose proof (blen_nonneg l). lia.
-    - apply sub_bytes, Hb. }
-  destruct (flag_loop (length (sub data 0 k)) n (sub data 0 k) 0 0 fl0) as [[rfb' fl']|e|] eqn:F; cbn [flag_post] in P; [destruct P as [L B]| |contradiction].
+  assert (Hku : k <= USIZE_MAX) by (unfold k; usz; lia).
+  assert (P : flag_post n 0 (sub data 0 k) (if 0 <? n then flag_loop (length (sub data 0 k)) n (sub data 0 k) 0 0 fl0 else Ok (0, fl0))).
+  { destruct (0 <? n) eqn:N0.
+    - apply Z.ltb_lt in N0. apply flag_loop_ok; try lia. apply sub_bytes, Hb.
+    - unfold flag_post. pose proof (blen_nonneg (sub data 0 k)). split; [exact E|lia]. }
+  destruct (if 0 <? n then flag_loop (length (sub data 0 k)) n (sub data 0 k) 0 0 fl0 else Ok (0, fl0)) as [[rfb' fl']|e|] eqn:F; cbn [flag_post] in P; [destruct P as [L B]| |contradiction].
   - cbn [rbind fst snd].
     match goal with |- context [coord_loop 2 16 fl' ?c 0] => pose proof (coord_loop_total 2 16 fl' c 0) as T1; destruct (coord_loop 2 16 fl' c 0) as [[xs c1]| |] end;
       cbn [rbind fst snd]; try congruence.
@@ -196,15 +210,15 @@ Lemma read_points_fast_length n data fl0 l : valid data -> 0 <= n <= USIZE_MAX -
   Z.of_nat (length l) = 3 * n.
 Proof.
   intros V Hn H. unfold read_points_fast in H. destruct (blen fl0 =? n) eqn:E; cbn [negb] in H; [|discriminate].
-  apply Z.eqb_eq in E. rewrite (rpf_flag_bytes n data V ltac:(lia)) in H. cbn [rbind] in H.
-  set (k := Z.min n (blen data)) in *. destruct V as [Hb Hv]. pose proof (blen_nonneg data) as Hl.
+  apply Z.eqb_eq in E. rewrite (rpf_flag_bytes data V) in H. cbn [rbind] in H.
+  set (k := blen data) in *. destruct V as [Hb Hv]. pose proof (blen_nonneg data) as Hl.
   assert (Lk : blen (sub data 0 k) = k) by (rewrite sub_length; unfold k; lia).
-  assert (P : flag_post n 0 (sub data 0 k) (flag_loop (length (sub data 0 k)) n (sub data 0 k) 0 0 fl0)).
-  { apply flag_loop_ok; try lia.
-    - destruct (Z.eq_dec n 0) as [Z0|NZ]; [left|right; lia].
-      assert (k = 0) by (unfold k; lia). destruct (sub data 0 k) eqn:S; [reflexivity|]. rewrite blen_cons in Lk. pose proof (blen_nonneg l0). lia.
-    - apply sub_bytes, Hb. }
-  destruct (flag_loop (length (sub data 0 k)) n (sub data 0 k) 0 0 fl0) as [[rfb' fl']|e|] eqn:F; cbn [flag_post] in P; [destruct P as [L B]| |contradiction].
+  assert (Hku : k <= USIZE_MAX) by (unfold k; usz; lia).
+  assert (P : flag_post n 0 (sub data 0 k) (if 0 <? n then flag_loop (length (sub data 0 k)) n (sub data 0 k) 0 0 fl0 else Ok (0, fl0))).
+  { destruct (0 <? n) eqn:N0.
+    - apply Z.ltb_lt in N0. apply flag_loop_ok; try lia. apply sub_bytes, Hb.
+    - unfold flag_post. pose proof (blen_nonneg (sub data 0 k)). split; [exact E|lia]. }
+  destruct (if 0 <? n then flag_loop (length (sub data 0 k)) n (sub data 0 k) 0 0 fl0 else Ok (0, fl0)) as [[rfb' fl']|e|] eqn:F; cbn [flag_post] in P; [destruct P as [L B]| |contradiction].
   - cbn [rbind fst snd] in H.
     match type of H with context [coord_loop 2 16 fl' ?c 0] => destruct (coord_loop 2 16 fl' c 0) as [[xs c1]| |] eqn:X end;
       cbn [rbind fst snd] in H; try discriminate.
